@@ -1374,7 +1374,7 @@ mod convert {
                 }
                 ConvertLineState::EndSequence => {
                     self.state = ConvertLineState::ReadRow;
-                    return Ok(Some(ConvertLineRow::EndSequence(self.from_row.address())));
+                    return Ok(Some(ConvertLineRow::EndSequence(self.address_offset()?)));
                 }
             }
             let mut tombstone = false;
@@ -1448,7 +1448,7 @@ mod convert {
                         self.state = ConvertLineState::EndSequence;
                         return Ok(Some(ConvertLineRow::SetAddress(address)));
                     }
-                    return Ok(Some(ConvertLineRow::EndSequence(self.from_row.address())));
+                    return Ok(Some(ConvertLineRow::EndSequence(self.address_offset()?)));
                 }
                 self.in_sequence = true;
                 if let Some(address) = self.address.take() {
@@ -1462,9 +1462,27 @@ mod convert {
             Ok(None)
         }
 
+        /// The address offset of the source row.
+        ///
+        /// The writer advances the address in units of the minimum instruction length,
+        /// so an offset that isn't a multiple of it (which `DW_LNS_fixed_advance_pc`
+        /// can produce) can't be converted.
+        fn address_offset(&self) -> ConvertResult<u64> {
+            let address_offset = self.from_row.address();
+            let minimum_instruction_length = self
+                .from_program
+                .header()
+                .line_encoding()
+                .minimum_instruction_length;
+            if address_offset % u64::from(minimum_instruction_length) != 0 {
+                return Err(ConvertError::UnsupportedLineInstruction);
+            }
+            Ok(address_offset)
+        }
+
         fn convert_row(&self) -> ConvertResult<LineRow> {
             Ok(LineRow {
-                address_offset: self.from_row.address(),
+                address_offset: self.address_offset()?,
                 op_index: self.from_row.op_index(),
                 file: {
                     let file = self.from_row.file_index();
